@@ -19,6 +19,14 @@ import time_machine
 EPOCH = datetime(2024, 1, 1, 0, 0, 0, tzinfo=timezone.utc)
 
 
+class Livelock(Exception):
+    """The loop ran LIVELOCK_LIMIT iterations without virtual time advancing and without finishing:
+    some task of the code under observation is spinning (a logical-step verdict, not a wall-clock one)."""
+
+
+LIVELOCK_LIMIT = 300_000
+
+
 class LoopMonitor:
     """Generic 'sanitizer' monitor: exceptions that reach the loop handler."""
 
@@ -50,6 +58,22 @@ def run_virtual(
             tr.move_to(start + timedelta(microseconds=round(clock.time() * 1e6)))
 
         clock.advance = adv
+        # livelock detector: count loop iterations at one virtual instant
+        spin = {"t": None, "n": 0}
+        orig_run_once = loop._run_once  # pylint: disable=protected-access
+
+        def run_once() -> None:
+            t = clock.time()
+            if t == spin["t"]:
+                spin["n"] += 1
+                if spin["n"] > LIVELOCK_LIMIT:
+                    spin["n"] = 0
+                    raise Livelock(f"{LIVELOCK_LIMIT} loop iterations at virtual time {t} without progress")
+            else:
+                spin["t"], spin["n"] = t, 0
+            orig_run_once()
+
+        loop._run_once = run_once  # type: ignore[method-assign]  # pylint: disable=protected-access
         if monitor is not None:
             loop.set_exception_handler(monitor.handler)
         loop.set_debug(debug)
@@ -62,7 +86,7 @@ def run_virtual(
                 for t in pend:
                     t.cancel()
                 if pend:
-                    loop.run_until_complete(asyncio.gather(*pend, return_exceptions=True))
+                    loop.run_until_complete(asyncio.wait(pend, timeout=5.0))
             except BaseException:  # pylint: disable=broad-except
                 pass
             with warnings.catch_warnings():
